@@ -15,6 +15,7 @@ import (
 	"crypto/x509"
 	"encoding/json"
 	"encoding/pem"
+	"errors"
 	"fmt"
 	"io"
 	"os"
@@ -359,12 +360,20 @@ func main() {
 		dir := lib.TempDir("c07")
 		defer os.RemoveAll(dir)
 		var store oras.Target
-		overRegistry := ci%6 == 5
+		overRegistry := ci%12 == 3 || ci%12 == 5 // (3: a stranger's signature is attached first, 5: it is not)
 		var reg *lib.FakeRegistry
 		if overRegistry {
 			// ... or a registry (in-process server speaking the distribution and referrers API)
 			reg = lib.NewFakeRegistry(1 + ci%2)
 			defer reg.Close()
+			switch (ci / 12) % 3 { // a registry with the referrers API; one without (referrers tag schema); one that also refuses deletions
+			case 1:
+				reg.NoReferrersAPI = true
+				r.Event("oci-round-trips-over-a-registry-without-referrers-api")
+			case 2:
+				reg.NoReferrersAPI, reg.FailDelete = true, true
+				r.Event("oci-round-trips-over-a-registry-without-referrers-api-that-refuses-deletions")
+			}
 			rr, err := remote.NewRepository(reg.Host() + "/test")
 			if err != nil {
 				panic(err)
@@ -423,7 +432,12 @@ func main() {
 		} else {
 			aDesc, _, err = notation.SignOCI(ctx, sgn, repo, notation.SignOptions{SignerSignOptions: sopts, ArtifactReference: ref, UserMetadata: c.Metadata})
 		}
-		if err != nil {
+		var idxDel *remote.ReferrersError
+		if err != nil && reg != nil && reg.FailDelete && errors.As(err, &idxDel) && idxDel.IsReferrersIndexDelete() {
+			// documented: the signature IS pushed and the descriptors are returned; the error only says that the index this
+			// push replaced could not be removed from the registry
+			r.Event("signed-with-the-could-not-delete-the-replaced-index-warning")
+		} else if err != nil {
 			r.Violation(sig("sign-failed"), fmt.Sprintf("%s: SignOCI failed: %v", id, err), wit)
 			return
 		}
